@@ -1,5 +1,85 @@
-import Smooth.Model.Surface
+/-
+C14 — An expression needs exactly the coordinates of the variables it mentions.
+
+`Supp p e` : the point has a coordinate for every variable occurring in `e`
+(`supp_iff_vars` : iff for every name in the model's variable list `e.vars`; `mem_vars` : that
+list contains exactly the occurring variables).  Extra coordinates are irrelevant
+(`evalG_congr_occurs`, …, generic in the number instance: Proofs/Coords.lean).
+-/
+import Smooth.Proofs.Reverse
+import Smooth.Proofs.Coords
+import Smooth.Model.Objects
+
 namespace Smooth
-/-- placeholder while the property file is being written -/
-theorem C14_placeholder : (1 : Nat) = 1 := rfl
+open Expr
+
+/-- **C14.**  At a point that supplies every occurring variable, evaluation never answers
+`CoordinateMissing` … -/
+theorem eval_supplied_no_missing (p : Point ℝ) (e : Expr ℝ) (hwf : WF e) (hs : Supp p e) :
+    evalG realNum p e ≠ .error .missing :=
+  fun h => (evalR_good p e hwf).missing_not_supp h hs
+
+/-- … nor does forward mode, whatever the differentiation variable (occurring or not, supplied by
+the point or not) … -/
+theorem fwd_supplied_no_missing (p : Point ℝ) (x : String) (e : Expr ℝ) (hwf : WF e)
+    (hs : Supp p e) : fwdG realNum p x e ≠ .error .missing := by
+  intro h
+  by_cases hd : Dom (valOf p) e
+  · obtain ⟨d, h', _⟩ := (fwdR_spec p x e hwf).1 hs hd
+    rw [h] at h'; cases h'
+  · have := (fwdR_spec p x e hwf).2.1 hs hd
+    rw [h] at this; cases this
+
+/-- … nor reverse mode. -/
+theorem rev_supplied_no_missing (p : Point ℝ) (e : Expr ℝ) (hwf : WF e) (hs : Supp p e) (m : ℝ)
+    (acc : Acc ℝ) : revG realNum p e m acc ≠ .error .missing := by
+  intro h
+  by_cases hd : Dom (valOf p) e
+  · obtain ⟨a, h', _⟩ := (revR_spec p e hwf m acc).1 hs hd
+    rw [h] at h'; cases h'
+  · have := (revR_spec p e hwf m acc).2.1 hs hd
+    rw [h] at this; cases this
+
+/-- Evaluation at a point lacking an occurring variable never returns a number. -/
+theorem eval_lacking_never_ok (p : Point ℝ) (e : Expr ℝ) (hwf : WF e) (x : String)
+    (hx : Occurs x e) (hp : p.get? x = none) (v : ℝ) : evalG realNum p e ≠ .ok v := by
+  intro h
+  have hs := ((evalR_good p e hwf).ok_iff.mp h).1
+  have := (supp_iff_occurs p e).mp hs x hx
+  rw [hp] at this; simp at this
+
+/-- whatever other coordinates the point has or lacks: only occurring variables are read -/
+theorem eval_extra_coordinates (p q : Point ℝ) (e : Expr ℝ)
+    (h : ∀ x, Occurs x e → p.get? x = q.get? x) : evalG realNum p e = evalG realNum q e :=
+  evalG_congr_occurs realNum e h
+
+theorem fwd_extra_coordinates (p q : Point ℝ) (x : String) (e : Expr ℝ)
+    (h : ∀ y, Occurs y e → p.get? y = q.get? y) : fwdG realNum p x e = fwdG realNum q x e :=
+  fwdG_congr_occurs realNum x e h
+
+/-- a bare number is accepted in place of a point exactly for expressions with at most one
+variable (see also `atNumber_usage_iff` in C01) … -/
+theorem single_variable_accepts_iff (e : Expr ℝ) :
+    (∃ x, singleVarName e = .ok x) ↔ ∀ x y, Occurs x e → Occurs y e → x = y := by
+  rw [singleVarName_ok_iff, vars_length_le_one_iff]
+
+/-- … and `Derivative` accepts exactly such expressions -/
+theorem derivative_accepts_iff (e : Expr ℝ) :
+    (∃ D, DerivativeObj.new realNum e false = .ok D) ↔ e.vars.length ≤ 1 := by
+  rw [← singleVarName_ok_iff]
+  unfold DerivativeObj.new PartialObj.new
+  constructor
+  · rintro ⟨D, h⟩
+    cases hs : singleVarName e with
+    | error err => simp [hs, bind, Except.bind] at h
+    | ok x => exact ⟨x, rfl⟩
+  · rintro ⟨x, hx⟩
+    simp [hx, bind, Except.bind, pure, Except.pure]
+
+/-- non-vacuity: an expression over two of three supplied coordinates -/
+example :
+    let e : Expr ℝ := mkAdd [mkVar "x", mkMul [mkVar "y", mkVar "x"]]
+    WF e ∧ Supp [("z", (1 : ℝ)), ("y", 2), ("x", 3)] e ∧ ¬ Supp [("z", (1 : ℝ)), ("x", 3)] e := by
+  simp [WF, WFList, Supp, SuppList, Point.get?]
+
 end Smooth
